@@ -5,7 +5,7 @@ system, the process, the environment or shared mutable state (properties C18, C1
 Token scan of every *.rs under /repo/src (tools/rustlex.py: comments and string literals are not
 tokens, so text inside them is never counted).  Reported, in file order then source order:
 
-  fs::<f>  File::<f>  OpenOptions  process::<f>  Command  env::<f>
+  fs::<f>  File::<f>  OpenOptions  process::<f>  Command  env::<f>  thread::<f>  .spawn( / ::spawn(
   path methods that ask the file system:  .is_dir() .is_file() .exists() .metadata() .read_dir()
                                           .canonicalize() .read_link() .symlink_metadata() .try_exists()
   the words remove_file remove_dir remove_dir_all create_dir create_dir_all rename set_permissions
@@ -78,6 +78,12 @@ def scan_file(path):
                 continue
             elif t == 'Command':
                 out.append(('process', 'Command'))
+            elif t == 'thread' and nxt == ('p', '::') and nn[0] == 'id':
+                out.append(('process', 'thread::' + nn[1]))
+                i += 3
+                continue
+            elif t in ('spawn', 'scope') and prev in (('p', '::'), ('p', '.')) and nxt == ('p', '('):
+                out.append(('process', 'thread ' + t))
             elif t == 'env' and nxt == ('p', '::') and nn[0] == 'id':
                 out.append(('process', 'env::' + nn[1]))
                 i += 3
